@@ -1,10 +1,13 @@
 #!/bin/sh
-# tools/run_all.sh [tier]: run every claimed check on the current tree, summarise
-TIER="${1:-quick}"
-cd /verif || exit 2
-for id in $(python3 -c "import json;print(' '.join(c['property_id'] for c in json.load(open('MANIFEST.json'))['checks']))"); do
+# tools/run_all.sh [tier] [ids...]: run every claimed check on the current tree, summarise
+TIER="${1:-quick}"; shift 2>/dev/null
+cd "$(dirname "$0")/.." || exit 2
+IDS="$*"
+[ -n "$IDS" ] || IDS=$(python3 -c "import json;print(' '.join(c['property_id'] for c in json.load(open('MANIFEST.json'))['checks']))")
+mkdir -p /tmp/run_all
+for id in $IDS; do
   s=$(date +%s)
-  ./check $id $TIER > /tmp/run_all.$id.log 2>&1; rc=$?
+  ./check $id $TIER > /tmp/run_all/$TIER.$id.log 2>&1; rc=$?
   e=$(date +%s)
-  echo "$id exit=$rc $((e-s))s $(grep -c '^VIOLATION' /tmp/run_all.$id.log) violations; $(grep '^RESULT' /tmp/run_all.$id.log | cut -c1-160)"
+  echo "$id exit=$rc $((e-s))s $(grep -c '^VIOLATION' /tmp/run_all/$TIER.$id.log) violations; $(grep '^RESULT' /tmp/run_all/$TIER.$id.log | cut -c1-160)"
 done
